@@ -7,7 +7,7 @@ package shimagent
 //vsym:replay none
 //vsym:expect-cover C07.listed-valid C07.purged-expired-upstream C07.purged-expired-memory C07.orphan-dropped C07.empty-list-keeps C07.upstream-fault
 //vsym:bound H07_upstream3: no in-memory certificate, exactly three upstream identities (two certificates and a third certificate or plain key), symbolic windows and clock, both modes, List / Signers / Sign
-//vsym:bound H07_shim: pre-state under the representation invariant with 0..1 (thorough 0..2) in-memory certificates and 0..2 (thorough 0..3) upstream identities (plain key of 2 possible keys, a certificate over either key, or the in-memory certificate itself also held upstream); every validity window and the clock symbolic; both modes; every map iteration order; the first (thorough: one of the first three) upstream call may fail; one operation from List / Signers / Sign
+//vsym:bound H07_shim: pre-state under the representation invariant with 0..1 (thorough 0..2) in-memory certificates and 0..2 upstream identities (plain key of 2 possible keys, a certificate over either key, or the in-memory certificate itself also held upstream); every validity window and the clock symbolic; both modes; every map iteration order; the first (thorough: one of the first two) upstream call may fail; one operation from List / Signers / Sign
 
 import (
 	"golang.org/x/crypto/ssh"
@@ -27,7 +27,7 @@ func h07MustAccept(c *ssh.Certificate) bool {
 func H07_shim() {
 	maxMem, maxUp := 1, 2
 	if vThorough() {
-		maxMem, maxUp = 2, 3
+		maxMem, maxUp = 2, 2 // three upstream identities are covered by H07_upstream3
 	}
 	h07Scenario(maxMem, maxUp, -1)
 }
@@ -92,7 +92,7 @@ func h07Scenario(maxMem, maxUp, exactUp int) {
 	}
 	nFault := 2
 	if vThorough() {
-		nFault = 4
+		nFault = 3
 	}
 	if exactUp >= 0 {
 		nFault = 1
